@@ -407,8 +407,11 @@ class Check:
         self.checker_cmd = "cd lean && lake build TbbVerif.Props.%s drv_%s && lake env lean ../build/%s/Audit.lean" % (pid, pid.lower(), pid)
 
     # -- obligations ----------------------------------------------------------------------------
-    def oblige(self, name, kind, ok, detail=""):
-        self.obligations.append({"name": name, "kind": kind, "ok": bool(ok), "detail": str(detail)[:2000]})
+    def oblige(self, name, kind, ok, detail="", cex_keys=None):
+        """cex_keys: keys of the counterexamples that account for this obligation's failure; if every one of them is a
+        listed known finding the broken obligation is considered explained (no extra no-failing-input-found line)."""
+        self.obligations.append({"name": name, "kind": kind, "ok": bool(ok), "detail": str(detail)[:2000],
+                                 "cex_keys": list(cex_keys) if cex_keys else []})
         if not ok:
             log("OBLIGATION FAILED: %s [%s] %s" % (name, kind, str(detail)[:400]))
         return ok
@@ -485,7 +488,9 @@ class Check:
             lines.append("VIOLATION property=%s replay=%s" % (pid, path))
             nviol += 1
         # obligations that broke and are not explained by a known finding / reported counterexample
-        unexplained = [o for o in broken if not o.get("explained")]
+        known_keys = {k for (k, _) in known}
+        unexplained = [o for o in broken if not o.get("explained")
+                       and not (o.get("cex_keys") and all(k in known_keys for k in o["cex_keys"]))]
         if unexplained and not unknown_cex:
             # every broken obligation that a known finding accounts for is marked by the plug-in
             h = hashlib.sha1(json.dumps(unexplained, sort_keys=True).encode()).hexdigest()[:10]
